@@ -55,10 +55,11 @@ impl<RS: Read + Seek> SeekableChain<RS> {
             return Ok(pos);
         }
         if pos >= self.max_pos {
-            self.abs_pos = self.max_pos;
+            // like a file: a position at/after the end is kept as is, reads there return 0
+            self.abs_pos = pos;
             self.cur_idx = self.chain.len() + 1;
             self.rel_pos = 0;
-            return Ok(self.max_pos);
+            return Ok(pos);
         }
         // todo optimize for relative... seek within rel_pos...
         self.abs_pos = 0;
@@ -127,9 +128,9 @@ impl<RS: Read + Seek> Seek for SeekableChain<RS> {
             }
             SeekFrom::End(offset) => {
                 if offset <= 0 {
-                    self.seek_abs(self.max_pos.saturating_sub(-offset as u64))
+                    self.seek_abs(self.max_pos.saturating_sub(offset.unsigned_abs()))
                 } else {
-                    Ok(self.max_pos)
+                    self.seek_abs(self.max_pos.saturating_add(offset as u64))
                 }
             }
         }
